@@ -178,6 +178,7 @@ func NewTemplateGenerator(
 	if err != nil {
 		return nil, fmt.Errorf("creating new registry: %w", err)
 	}
+	reg.SetDstPkgName(pkgName)
 
 	return &TemplateGenerator{
 		templateName:        templateName,
